@@ -94,7 +94,10 @@ func (a *Analyzer) step(fr *frame, instr ssa.Instruction, mem *Memory) {
 	switch in := instr.(type) {
 	case *ssa.Alloc:
 		id := a.objID(fmt.Sprintf("alloc:%s|%p", fr.ctx, in))
-		mem.cells[id] = zeroValue(in.Type().(*types.Pointer).Elem())
+		et := in.Type().(*types.Pointer).Elem()
+		mem.cells[id] = zeroValue(et)
+		delete(mem.shared, id)
+		a.objType[id] = et
 		fr.env[in] = &Ptr{Obj: id}
 	case *ssa.BinOp:
 		fr.env[in] = a.binop(fr, in, a.val(fr, in.X), a.val(fr, in.Y))
@@ -110,16 +113,20 @@ func (a *Analyzer) step(fr *frame, instr ssa.Instruction, mem *Memory) {
 	case *ssa.ChangeInterface:
 		fr.env[in] = a.val(fr, in.X)
 	case *ssa.FieldAddr:
-		switch p := a.val(fr, in.X).(type) {
-		case *Ptr:
-			if p.tracked() {
-				fr.env[in] = p.sub(in.Field)
-			} else {
-				fr.env[in] = untrackedPtr()
-			}
-		default:
-			fr.env[in] = untrackedPtr()
+		xv := a.val(fr, in.X)
+		if p, ok := xv.(*Ptr); ok && p.tracked() {
+			fr.env[in] = p.sub(in.Field)
+			break
 		}
+		np := untrackedPtr()
+		if a.heap != nil {
+			if pt, ok := in.X.Type().Underlying().(*types.Pointer); ok {
+				if st, ok := pt.Elem().Underlying().(*types.Struct); ok {
+					np.Sum = fieldKey(pt.Elem(), sumOf(xv), st.Field(in.Field))
+				}
+			}
+		}
+		fr.env[in] = np
 	case *ssa.IndexAddr:
 		fr.env[in] = a.indexAddr(fr, in)
 	case *ssa.Field:
@@ -134,10 +141,20 @@ func (a *Analyzer) step(fr *frame, instr ssa.Instruction, mem *Memory) {
 		fr.env[in] = a.slice(fr, in)
 	case *ssa.Store:
 		v := a.val(fr, in.Val)
-		p, _ := a.val(fr, in.Addr).(*Ptr)
-		if p == nil || !mem.store(p, v) {
-			// memory the analysis does not follow: every bit is observed
-			a.useDeep(in, v, "a store to untracked memory")
+		pv := a.val(fr, in.Addr)
+		p, _ := pv.(*Ptr)
+		if p != nil && mem.store(p, v) {
+			if a.heap != nil && mem.shared[p.Obj] {
+				a.heap.absorb(in.Val.Type(), keyAt(a.objType[p.Obj], p.Path), v)
+				a.escape(v, mem)
+			}
+			break
+		}
+		// memory the analysis does not follow: every bit is observed
+		a.useDeep(in, v, "a store to untracked memory")
+		if a.heap != nil {
+			a.heap.absorb(in.Val.Type(), sumOf(pv), v)
+			a.escape(v, mem)
 		}
 	case *ssa.Extract:
 		if t, ok := a.val(fr, in.Tuple).(*Tuple); ok && in.Index < len(t.Elems) {
@@ -207,14 +224,14 @@ func (a *Analyzer) indexAddr(fr *frame, in *ssa.IndexAddr) Value {
 	case *Ptr:
 		n, ok := arrayLen(in.X.Type())
 		if !x.tracked() || !ok {
-			return untrackedPtr()
+			return &Ptr{Sum: x.Sum}
 		}
 		if i, ok := pickIndex(idx.Itv, n); ok {
 			return x.sub(i)
 		}
 	case *Slice:
 		if x.Arr == nil || !x.Arr.tracked() {
-			return untrackedPtr()
+			return &Ptr{Sum: x.Sum}
 		}
 		if !x.Off.IsSingle() || !idx.Itv.IsSingle() {
 			return x.Arr.sub(-1)
@@ -265,10 +282,13 @@ func (a *Analyzer) slice(fr *frame, in *ssa.Slice) Value {
 			baseLen = &l
 			if x.tracked() {
 				out.Arr = x
+			} else {
+				out.Sum = x.Sum
 			}
 		}
 	case *Slice:
 		out.Arr = x.Arr
+		out.Sum = x.Sum
 		out.Off = x.Off
 		l := x.Len
 		baseLen = &l
@@ -299,13 +319,20 @@ func (a *Analyzer) slice(fr *frame, in *ssa.Slice) Value {
 func (a *Analyzer) unop(fr *frame, in *ssa.UnOp, mem *Memory) Value {
 	switch in.Op {
 	case token.MUL: // load
-		p, _ := a.val(fr, in.X).(*Ptr)
-		if p != nil {
+		pv := a.val(fr, in.X)
+		if p, _ := pv.(*Ptr); p != nil {
 			if v, ok := mem.load(p); ok && v != nil {
 				if _, isOpaque := v.(*Opaque); !isOpaque {
+					if a.heap != nil && mem.shared[p.Obj] && a.heap.contains(in.Type()) {
+						// the object is also reachable through untracked memory
+						v = joinValues(v, a.heap.summaryValue(in.Type(), keyAt(a.objType[p.Obj], p.Path)))
+					}
 					return v
 				}
 			}
+		}
+		if a.heap != nil && a.heap.contains(in.Type()) {
+			return a.heap.summaryValue(in.Type(), sumOf(pv))
 		}
 		return topValue(in.Type(), a.sizes)
 	case token.NOT:
